@@ -6,7 +6,31 @@ from func_adl.ast.func_adl_ast_utils import FuncADLNodeTransformer
 from func_adl.object_stream import ObjectStream
 
 
-class _extract_metadata(FuncADLNodeTransformer):
+class _copy_on_write_transformer(ast.NodeTransformer):
+    """A node transformer that never alters the tree it visits (it may be shared with
+    other queries): a shallow copy of a node is made only when one of its children changes.
+    """
+
+    def generic_visit(self, node: ast.AST) -> ast.AST:
+        changes = {}
+        for field, old_value in ast.iter_fields(node):
+            if isinstance(old_value, list):
+                new_value = [self.visit(v) if isinstance(v, ast.AST) else v for v in old_value]
+                if any(n is not o for n, o in zip(new_value, old_value)):
+                    changes[field] = new_value
+            elif isinstance(old_value, ast.AST):
+                new_value = self.visit(old_value)
+                if new_value is not old_value:
+                    changes[field] = new_value
+        if len(changes) == 0:
+            return node
+        new_node = copy.copy(node)
+        for field, new_value in changes.items():
+            setattr(new_node, field, new_value)
+        return new_node
+
+
+class _extract_metadata(_copy_on_write_transformer, FuncADLNodeTransformer):
     """Extract all the metadata from an expression, and remove the
     metadata nodes. Assume the metadata can all be bubbled to the top and
     has equal precedence.
@@ -69,27 +93,7 @@ def remove_empty_metadata(a: ast.AST) -> ast.AST:
         ast.AST: The cleaned up AST.
     """
 
-    class _cleaner(ast.NodeTransformer):
-        def generic_visit(self, node: ast.AST) -> ast.AST:
-            # Copy-on-write: never alter `node` (it may be shared with other queries).
-            # A shallow copy is made only when one of its children changes.
-            changes = {}
-            for field, old_value in ast.iter_fields(node):
-                if isinstance(old_value, list):
-                    new_value = [self.visit(v) if isinstance(v, ast.AST) else v for v in old_value]
-                    if any(n is not o for n, o in zip(new_value, old_value)):
-                        changes[field] = new_value
-                elif isinstance(old_value, ast.AST):
-                    new_value = self.visit(old_value)
-                    if new_value is not old_value:
-                        changes[field] = new_value
-            if len(changes) == 0:
-                return node
-            new_node = copy.copy(node)
-            for field, new_value in changes.items():
-                setattr(new_node, field, new_value)
-            return new_node
-
+    class _cleaner(_copy_on_write_transformer):
         def visit_Call(self, node: ast.Call):
             n = self.generic_visit(node)
             assert isinstance(n, ast.Call)
